@@ -21,7 +21,7 @@ ENCS = ['latin_1', 'cp500', 'ascii']
 PAIR_ALPHABET_TXT = ['0', '1', '7', '9', '-', '+', ' ', '_', 'A']
 PAIR_ALPHABET_RAW = [0x00, 0xff]
 CLOSURE_SYMBOLS = ['0', '1', '9', '-', ' ', 'A', 0x00, 0xff]
-CPU_LIMIT = 5.0
+CPU_LIMIT = 3.0
 
 
 def symbol_bytes(sym, enc):
